@@ -53,6 +53,8 @@ type GenOpts struct {
 	TypedefOnlyStructs     bool // typedefs only of struct-likes (for use_type_alias=false, which breaks typedef'd scalars)
 	MoreServices           bool // 2-3 services per file
 	ArgDefaults            bool // default values on function arguments
+	RootRelativeIncludes   bool // files in sub-directories write their includes relative to the program root (needs -i <root>)
+	DottedFiles            bool // file names with a dot in the stem (base.v1.thrift next to base.thrift): include prefixes with dots
 	ThrowNamePool          bool // throws fields are named from a tiny pool, so that different exception types meet under one name (C07)
 	TypedefEnumSel         bool // enum values selected through a typedef (Typedef.VALUE): accepted by the analyser, rejected by the Go backend
 }
@@ -939,6 +941,14 @@ func Generate(rng *vlib.Rng, o GenOpts) *Program {
 	if o.SameBase && o.Files >= 3 {
 		names[2] = "sub/base.thrift"
 	}
+	if o.DottedFiles {
+		names[3] = "base.v1.thrift"
+		names[4] = "deep/er/types.v2.thrift"
+		if o.Files >= 3 && !o.SameBase {
+			names[2] = "base.v1.thrift"
+			names[3] = "common/shared.thrift"
+		}
+	}
 	for i := 0; i < o.Files; i++ {
 		f := &File{Path: names[i%len(names)]}
 		if i >= len(names) {
@@ -959,7 +969,11 @@ func Generate(rng *vlib.Rng, o GenOpts) *Program {
 				if o.SameBase {
 					// two includes with the same prefix in one file would make prefix.Name ambiguous only if names clash; keep names disjoint below
 				}
-				f.Includes = append(f.Includes, &Include{File: inc, Path: relPath(f.Path, inc.Path)})
+				ip := relPath(f.Path, inc.Path)
+				if o.RootRelativeIncludes && strings.Contains(f.Path, "/") {
+					ip = inc.Path // found through the include search path, not next to the including file
+				}
+				f.Includes = append(f.Includes, &Include{File: inc, Path: ip})
 			}
 		}
 		if len(f.Includes) > 1 && rng.Bool() {
@@ -1084,7 +1098,8 @@ func Generate(rng *vlib.Rng, o GenOpts) *Program {
 		}
 		if o.PrefixNames && len(f.Includes) > 0 && rng.Chance(1, 3) {
 			pn := f.Includes[rng.Intn(len(f.Includes))].File.Prefix()
-			if !g.used[f][pn] {
+			if !g.used[f][pn] && !strings.Contains(pn, ".") { // a definition named "base.v1" is no realistic name
+
 				g.used[f][pn] = true
 				d := g.genStructLike(f, KStruct)
 				delete(g.used[f], d.Name)
